@@ -131,6 +131,14 @@ def run(ctx):
             add_enc(n, rr, s)
         for v in bv:
             add_helpers(n, v)
+    # the same value under orders of different byte lengths, consecutively (helpers must not remember the previous call)
+    mixed = [7, 257, 65537, orders[0], orders[3], orders[4], orders[2], 2 ** 64 + 13]
+    for v in (0, 1, 5, 127, 128, 255, 256):
+        for n in mixed + mixed[::-1]:
+            if v < n:
+                add_helpers(n, v)
+                add_enc(n, v, v)
+                add_enc(n, 1, v)
     # decoder inputs: every byte string of length <= 2 through each decoder, several orders
     short = [b""] + [bytes([a]) for a in range(256)] + [bytes([a, b]) for a in range(256) for b in range(256)]
     for n in (2, 255) if quick else (2, 255, 256, 65537):
